@@ -4,7 +4,7 @@ import json
 import os
 
 ROOT = "/verif"
-HOOK_COMMITS = ["9464261", "db74668"]
+HOOK_COMMITS = ["9464261", "db74668", "82c77a2"]
 
 TB = ("Trusted: Coq 8.16.1 kernel (+vm_compute for evaluating the model on correspondence cases; no native_compute); "
       "the hand-written Gallina model, tied to /repo only by this check's correspondence run against the binary built from /repo's working tree with --cfg vicut_verif; "
@@ -33,6 +33,30 @@ CLAIMED = {
         note=TB + "The JSON document structure (array/object layout) is validated by json.loads on the real output, not proved; serde_json itself is re-modelled, not verified.",
         technique="Coq proof (escape/unescape round trip by induction, numbering invariant, template scanner lemmas) + model-vs-binary correspondence",
         design="§9 C14"),
+    "C03": dict(
+        text="Theorems: get_lines loses/duplicates/merges/reorders nothing (concat = input; every piece non-empty with a newline only as terminator); the stdin driver's records are the per-line records concatenated in order; template and delimiter renderings of concatenated records are the concatenation of the renderings; "
+             "for every schedule and whatever registers the worker threads hold, the sorted per-line results are the lines' own results (execute resets registers). Correspondence: --linewise runs (stdin/files, serial/parallel, all output modes) vs the Coq driver model fed with the hook's per-unit records; oracles: units = lines exactly once, output = concatenation of one real run per line.",
+        note=TB + "JSON layout per driver is modelled, not proved equal across drivers; rayon scheduling trusted (see C04).",
+        technique="Coq proof (list induction, permutation/sort argument) + driver-model correspondence + per-line oracle",
+        design="§9 C03"),
+    "C04": dict(
+        text="Theorems: sort_by_key restores input order from any collection order (permutation argument); schedule independence and isolation for every assignment of units to workers and every initial register state, because execute() resets the registers; refutation for the pre-fix code; parallel = serial up to serial's final newline (single file). "
+             "Partial: the theorem covers every schedule of the model; real rayon interleavings are sampled: 36/80 scenarios x 5/10 runs with RAYON_NUM_THREADS in {1..32} and seeded jitter (hook), byte-compared with each other and with --serial, worker ids read from the hook trace.",
+        note=TB + "Trusted and not modelled: rayon runs a unit entirely on one worker and only produces schedules of the model; thread_local! is per thread; safe Rust has no data race.",
+        technique="Coq proof (schedule-independence by permutation + insertion-sort lemma) + sampled real schedules with jitter hook",
+        design="§9 C04"),
+    "C05": dict(
+        text="Theorems (all file systems, file lists, payloads): the write loop of the -i drivers leaves every named file holding exactly its payload, touches no other path and prints nothing; with --backup the sibling holds the original object (under the stated no-collision hypothesis); the default driver with -i is that loop on the formatted outputs; the payload equals what the run without -i prints (single file). "
+             "Correspondence: every -i run and its twin executed in a scratch directory (4 modes x --backup, stale backups, extension-less/dot files, unnamed bystander files) vs the Coq driver model; oracles: twin payload, motion-only identity, backups, nothing else touched.",
+        note=TB + "OS-level behaviour of fs::write/fs::copy not modelled (atomic in the model).",
+        technique="Coq proof (file-system map lemmas, induction over the write loop) + driver-model correspondence",
+        design="§9 C05"),
+    "C06": dict(
+        text="Theorems: for the default/pooled and the parallel --linewise drivers, any unreadable file or aborting unit (any subset, any position), and any formatting error, leaves file system and stdout exactly as before (all reads, executions and formatting precede the first write); --serial refuted with a witness (known finding). "
+             "Fault enumeration at the CLI: 2..4 files x all non-empty fault subsets x {invalid UTF-8, data-dependent abort, missing template field} x 7 modes (incl. pooled via vic opts) x --backup (exhaustive on thorough) vs the Coq driver model; oracle: no named file changed, no stray backup.",
+        note=TB + "Write-time faults and a file vanishing between validation and read are not injected; fs::write atomicity not modelled.",
+        technique="Coq proof (phase structure of the drivers) + exhaustive fault enumeration against the driver model",
+        design="§9 C06"),
 }
 
 NOT_YET = {}
